@@ -61,7 +61,35 @@ def run_seed(path, repo="/repo"):
     finally:
         shutil.rmtree(d, ignore_errors=True)
 
+def run_keep(path, repo="/repo"):
+    """A behaviour-preserving refactoring (/verif/selftest/keeps/<id>/patch.diff): the checks listed in
+    must_stay_quiet_for must exit 0 without a VIOLATION line on the patched copy."""
+    meta = json.load(open(os.path.join(path, "meta.json")))
+    name = "keep:" + meta["id"]
+    props = meta.get("must_stay_quiet_for", [meta["anchored_in_property"]])
+    if ONLY_PROP:
+        props = [p for p in props if p == ONLY_PROP]
+    d = tempfile.mkdtemp(prefix="astisub-keep-")
+    try:
+        dst = os.path.join(d, "repo")
+        shutil.copytree(repo, dst, ignore=shutil.ignore_patterns(".git"))
+        r = subprocess.run(["patch", "-p1", "-s", "--no-backup-if-mismatch", "-i", os.path.join(path, "patch.diff")], cwd=dst, capture_output=True, text=True)
+        if r.returncode != 0:
+            return name, "skipped", "patch no longer applies to the current tree"
+        res, ok = [], True
+        for prop in props:
+            r = subprocess.run([os.path.join(ROOT, "bin", "astisubcheck"), "-prop", prop, "-repo", dst, "-verif", ROOT, "-noevidence"], env=ENV, capture_output=True, text=True)
+            quiet = r.returncode == 0 and "VIOLATION" not in r.stdout
+            first = next((l for l in r.stdout.splitlines() if l.startswith("FAIL") or l.startswith("UNDECIDED")), "")
+            res.append(f"{prop}:{'quiet' if quiet else 'FALSE-ALARM'} {first[:200]}")
+            ok = ok and quiet
+        return name, "quiet" if ok else "missed", " | ".join(res)
+    finally:
+        shutil.rmtree(d, ignore_errors=True)
+
 def run_one(path, repo="/repo", build_check=True):
+    if os.path.isdir(path) and os.sep + "keeps" + os.sep in path + os.sep:
+        return run_keep(path, repo)
     if os.path.isdir(path):
         return run_seed(path, repo)
     m = json.load(open(path))
@@ -123,8 +151,12 @@ def main():
             paths = [p for p in paths if os.path.basename(p)[:-5] in args]
         else:
             paths += sorted(p.rstrip("/") for p in glob.glob(os.path.join(ROOT, "seeded", "*/")))
+            paths += sorted(p.rstrip("/") for p in glob.glob(os.path.join(ROOT, "selftest", "keeps", "*/")))
         if ONLY_PROP:
             def wants(p):
+                if os.path.isdir(p) and os.sep + "keeps" + os.sep in p + os.sep:
+                    m = json.load(open(os.path.join(p, "meta.json")))
+                    return ONLY_PROP in m.get("must_stay_quiet_for", [m["anchored_in_property"]])
                 if os.path.isdir(p):
                     return ONLY_PROP in json.load(open(os.path.join(p, "meta.json")))["breaks_property"].split(",")
                 return ONLY_PROP in json.load(open(p))["props"]
@@ -140,7 +172,7 @@ def main():
         if evidence and os.path.exists(evidence):
             ev = json.load(open(evidence))
             ev["coverage"]["selftest"] = {"variants_of_repo_analysed": len(paths), "outcomes": outcomes,
-                "rule": "each stored mutation / seeded change is applied to a scratch copy of the current /repo; the check must fail there (ok_* variants must stay quiet); a missed one fails the thorough run as a broken checker, never as a property violation"}
+                "rule": "each stored mutation / seeded change is applied to a scratch copy of the current /repo; the check must fail there (ok_* variants and the stored behaviour-preserving refactorings under selftest/keeps must stay quiet); a missed one fails the thorough run as a broken checker, never as a property violation"}
             json.dump(ev, open(evidence, "w"), indent=1)
         sys.exit(1 if bad else 0)
     sys.exit(__doc__)
